@@ -646,6 +646,84 @@ def rule_rho(ctx):
                 res.violate("%s : absorbing-start:%s" % (key, name), "`%s` starts at %sinfinity and is updated with `%s`: the start value is absorbing, the update never changes it and the bound stays infinite" % (name, "+" if sg > 0 else "-", op), fn_loc(fn, n["ln"]))
     if n_upd < 8:
         res.missing_anchor("running-bound updates in calculate_rho / calculate_rho_nu (expected 8, found %d)" % n_upd)
+    # (c) the two bounds are combined only under a finiteness test: each is tightened only by variables of one kind, so
+    # one of them is still infinite when no variable of that kind exists (nu = 1: every variable at its upper bound)
+    from .layout import with_parents
+    FIN = ("is_finite", "is_infinite", "is_nan", "is_normal")
+
+    def guarded(anc, node):
+        for i_, a in enumerate(anc):
+            if a.get("k") == "If" and any(y.get("k") == "MethodCall" and y["name"] in FIN for y in walk(a["c"])):
+                return True
+            if a.get("k") == "Match" and a.get("src", "Normal") == "Normal" and any(y.get("k") == "MethodCall" and y["name"] in FIN for y in walk(a["scrut"])):
+                return True
+        return False
+
+    def unguarded_sums(fn, pos, neg):
+        """`a + b` / `a - b` with one operand a +inf-started bound and the other a -inf-started one, not under a finiteness test"""
+        out = []
+        for n, anc in with_parents(fn["body"]):
+            if n.get("k") == "Binary" and n["op"] in ("+", "-"):
+                l, r_ = peel_refs(n["l"]), peel_refs(n["r"])
+                ls, rs = l.get("local"), r_.get("local")
+                if ls is None or rs is None:
+                    continue
+                if (ls in pos and rs in neg) or (ls in neg and rs in pos):
+                    out.append((n, guarded(anc, n)))
+        return out
+    n_mid = 0
+    for fn in solver_fns(F):
+        c = fn["crate"]
+        inits = {}
+        for n in walk(fn["body"]):
+            if n.get("k") != "LetStmt" or n.get("init") is None:
+                continue
+            pat, init = n["pat"], strip(n["init"])
+            if pat.get("k") == "Bind" and _inf_sign(c, init):
+                inits[pat["local"]] = _inf_sign(c, init)
+            elif pat.get("k") == "Tuple" and init.get("k") == "Tup":
+                for q, e in zip(pat["pats"], init["es"]):
+                    if q.get("k") == "Bind" and _inf_sign(c, e):
+                        inits[q["local"]] = _inf_sign(c, e)
+        pos = set(l for l, sg in inits.items() if sg > 0)
+        neg = set(l for l, sg in inits.items() if sg < 0)
+        if not pos or not neg:
+            continue
+        key = fn_key(fn)
+        for n, ok_ in unguarded_sums(fn, pos, neg):
+            n_mid += 1
+            res.instance("%s : bounds combined in place" % key)
+            if ok_:
+                res.ok()
+            else:
+                res.violate("%s : unbounded-midpoint" % key, "the running bounds (started at +infinity and -infinity, each tightened only by variables of one kind) are combined without a finiteness test: when no variable of one kind exists - every variable at its upper bound, as for nu = 1 - one of them is still infinite and the threshold becomes infinite or NaN", fn_loc(fn, n["ln"]))
+        # ... or handed to a helper of the crate
+        for n in walk(fn["body"]):
+            if n.get("k") != "Call":
+                continue
+            f0 = strip(n["f"])
+            if f0.get("k") != "Path":
+                continue
+            args = [peel_refs(a).get("local") for a in n["args"]]
+            if not (any(a in pos for a in args) and any(a in neg for a in args)):
+                continue
+            g = next((x for x in c.fns if x["def"] == f0.get("inst", f0.get("def"))), None)
+            n_mid += 1
+            res.instance("%s : bounds handed to %s" % (key, (c.dfn(f0.get("def")) or {}).get("name")))
+            if g is None:
+                res.undecided("%s : midpoint-helper" % key, "the function the two running bounds are handed to is not in the workspace (fail closed)", fn_loc(fn, n["ln"]))
+                continue
+            gp = [[b["local"] for b in pat_bindings(p_)] for p_ in g["params"]]
+            gpos = set(l for a, ls in zip(args, gp) if a in pos for l in ls)
+            gneg = set(l for a, ls in zip(args, gp) if a in neg for l in ls)
+            sums = unguarded_sums(g, gpos, gneg)
+            bad = [x for x, ok_ in sums if not ok_]
+            if bad:
+                res.violate("%s : unbounded-midpoint" % key, "`%s` combines the two running bounds without a finiteness test: with no variable of one kind one of them is still infinite and the threshold becomes infinite or NaN" % g["d"]["name"], fn_loc(g, bad[0]["ln"]))
+            else:
+                res.ok()
+    if n_mid < 3:
+        res.missing_anchor("places where the running bounds of calculate_rho / calculate_rho_nu are combined (expected 3, found %d)" % n_mid)
     # (b) one quantity in every branch of calculate_rho
     for fn in [f for f in solver_fns(F) if f["d"]["name"] == "calculate_rho"]:
         key = fn_key(fn)
@@ -687,7 +765,7 @@ def rule_rho(ctx):
                 res.violate("%s : branch-sign" % key, "a branch of calculate_rho feeds `%s` into the bounds / free sum%s; every branch must use y_i*G_i (sign of the label times the gradient)" % (k(x)[:60], " under a label test where y_i = %+d" % sgn if sgn is not None else ""), fn_loc(fn, e.node["ln"]))
         if n_leaf < 5:
             res.missing_anchor("the five branch values of calculate_rho (found %d)" % n_leaf)
-    return res.finish(13)
+    return res.finish(16)
 
 
 def rule_rescale(ctx):
@@ -849,5 +927,84 @@ def rule_extent(ctx):
     return res.finish(2)
 
 
+def rule_nusetup(ctx):
+    """The nu formulations with two classes of variables (nu-SVC: the two labels; nu-SVR: alpha and alpha*) have a second
+    equality constraint, sum of all variables = C*nu*l, besides y^T alpha = const; only the nu variant of the solver
+    (select_working_set_nu picks both variables from the same class, calculate_rho_nu) keeps it.  The plain solver moves
+    weight between the classes, so the published coefficients no longer satisfy the constraint and do not depend on nu.
+    One-class SVM has a single class of variables and a single constraint: the plain solver is right for it.  Siblings
+    are cross-checked: a set-up that takes `nu` and fills the target signs with both values must ask for the nu solver,
+    every other set-up must not."""
+    res = RuleResult("R-C13-nusetup", "problem set-ups: nu formulations with two classes of variables request the nu-constrained solver, all others the plain one")
+    F = ctx.facts()
+    n = 0
+    for fn in F.all_fns():
+        if fn["d"]["krate"] != "linfa_svm" or fn.get("exp"):
+            continue
+        c = fn["crate"]
+        calls = []
+        for y in walk(fn["body"]):
+            if y.get("k") == "Call" and strip(y["f"]).get("k") == "Path":
+                d0 = c.dfn(strip(y["f"]).get("def")) or {}
+                if d0.get("name") == "new" and (d0.get("self_adt") or "").endswith("SolverState") and len(y["args"]) == 8:
+                    calls.append(y)
+        if not calls or "tests" in fn["d"]["path"]:
+            continue
+        key = fn_key(fn)
+        pnames = [b["name"] for p_ in fn["params"] for b in pat_bindings(p_)]
+        has_nu = "nu" in pnames
+        for call in calls:
+            n += 1
+            res.instance("%s : SolverState::new" % key)
+            flag = peel_refs(call["args"][7])
+            if flag.get("k") != "Lit" or str(flag.get("v")) not in ("true", "false"):
+                res.undecided("%s : solver-kind" % key, "the nu_constraint argument is not a literal (fail closed)", fn_loc(fn, call["ln"]))
+                continue
+            want_nu = str(flag.get("v")) == "true"
+            # are both signs present among the targets handed to the solver?
+            t = peel_refs(call["args"][2])
+            while t.get("k") == "MethodCall" and t["name"] in ("to_vec", "clone", "to_owned"):
+                t = peel_refs(t["recv"])
+            inits = {}
+            for y in walk(fn["body"]):
+                if y.get("k") == "LetStmt" and y.get("init") is not None and y["pat"].get("k") == "Bind":
+                    inits[y["pat"]["local"]] = y["init"]
+            tl = t.get("local")
+            src = inits.get(tl) if tl is not None else t
+
+            def uniform(e):
+                e = peel_refs(e) if e is not None else None
+                if e is None:
+                    return None
+                lits = [str(z.get("v")) for z in walk(e) if z.get("k") == "Lit" and str(z.get("v")) in ("true", "false")]
+                calls_ = [z for z in walk(e) if z.get("k") == "Call"]
+                if len(lits) == 1 and any((c.dfn(strip(z["f"]).get("def")) or {}).get("name") == "from_elem" for z in calls_ if strip(z["f"]).get("k") == "Path"):
+                    return lits[0]
+                return None
+            u = uniform(src)
+            signs = set([u]) if u else set()
+            if tl is not None:
+                for y in walk(fn["body"]):
+                    if y.get("k") == "Assign":
+                        l = strip(y["l"])
+                        if l.get("k") == "Index" and peel_refs(l["e"]).get("local") == tl:
+                            v = peel_refs(y["r"])
+                            signs.add(str(v.get("v")) if v.get("k") == "Lit" else "?")
+            two_classes = (u is None) or len(signs) > 1
+            if has_nu and two_classes and not want_nu:
+                res.violate("%s : nu-setup-without-nu-solver" % key, "`%s` sets the problem up from `nu` with variables of both signs but requests the plain solver (nu_constraint = false): the second equality constraint, sum of all variables = C*nu*l, is not maintained, so the published coefficients are infeasible for the nu problem and do not depend on nu" % fn["d"]["name"], fn_loc(fn, call["ln"]))
+            elif want_nu and not (has_nu and two_classes):
+                res.violate("%s : plain-setup-with-nu-solver" % key, "`%s` requests the nu-constrained solver for a problem with %s" % (fn["d"]["name"], "a single class of variables" if has_nu else "no nu constraint"), fn_loc(fn, call["ln"]))
+            else:
+                res.ok()
+    if n < 5:
+        res.missing_anchor("SVM problem set-ups calling SolverState::new (fit_c, fit_nu x2, fit_one_class, fit_epsilon; found %d)" % n)
+    return res.finish(5)
+
+
 def rules(tier):
-    return [rule_swap, rule_bound, rule_space, rule_sv, rule_sib, rule_snapshot, rule_rho, rule_rescale, rule_memorder, rule_extent, rule_kernel]
+    from . import carry, c04
+    from . import precision
+    return [rule_nusetup, rule_swap, rule_bound, rule_space, rule_sv, rule_sib, rule_snapshot, rule_rho, rule_rescale, rule_memorder, rule_extent, rule_kernel,
+            carry.make_clone_rule("R-C13-clone", {"linfa_svm", "linfa_kernel"}, 6), carry.make_setter_rule("R-C13-override", {"linfa_svm"}, 6), c04.make_carry_rule("R-C13-carry", {"SvmParams"}, 6),
+            precision.make_rule("R-C13-precision", lambda f: f["d"]["krate"] in ("linfa_svm", "linfa_kernel"), 100, "linfa-svm and linfa-kernel")]
